@@ -12,7 +12,7 @@ from . import c06
 
 PROPERTY = 'C07'
 NEED_C = True
-RULE = ('Leg "omp" (real libgomp): Hypothesis draws a collection (2..9 series, lengths 1..6, ndim 1..2, list-of-arrays and '
+RULE = ('Leg "omp" (real libgomp): Hypothesis draws a collection (2..9 series, one case in 8 with 10..24, lengths 1..6, ndim 1..2, list-of-arrays and '
         'matrix containers), a block (all forms), a settings subset and a thread count in {1,2,3,4,7,16,33,64} (more '
         'threads than rows, oversubscription of the 16 cores); distance_matrix(parallel=True, use_c=True) is executed '
         'several times in a separate interpreter (omp_set_num_threads) and compared bitwise with parallel=False from the '
@@ -33,7 +33,7 @@ POOLS = [1, 2, 3, 5, 16]
 @st.composite
 def _case(draw, kind):
     ndim = draw(st.sampled_from([1, 1, 2]))
-    n = draw(st.integers(2, 9))
+    n = draw(gen.count(2, 9, 24, one_in=8))
     eq = draw(st.booleans())
     L0 = draw(st.integers(1, 6))
     series = []
